@@ -1850,3 +1850,81 @@ B('c03-frames-share-machine-constants', 'C03', 'R03.h', CALLSTACK,
   "        self._top.constants = constants or {}", "        self._top.constants = {} if constants is None else constants")
 N('c03-constants-fresh-if-form', 'C03', CALLSTACK,
   "        self._top.constants = constants or {}", "        self._top.constants = constants if constants else {}")
+
+# --- R01.o (fix d7f758c): a constant is always moved to its destination
+B('c01-constant-move-skipped-by-identity', 'C01', 'R01.o', PARSE,
+  "        elif move_inst is OpCode.MOVEQ or value is not dest:", "        elif value is not dest:")
+B('c01-constant-move-skipped-by-equality', 'C01', 'R01.o', PARSE,
+  "        elif move_inst is OpCode.MOVEQ or value is not dest:", "        elif value != dest:")
+N('c01-constant-move-operands-swapped', 'C01', PARSE,
+  "        elif move_inst is OpCode.MOVEQ or value is not dest:", "        elif value is not dest or move_inst == OpCode.MOVEQ:")
+N('c01-constant-move-negated-form', 'C01', PARSE,
+  "        elif move_inst is OpCode.MOVEQ or value is not dest:", "        elif not (move_inst is not OpCode.MOVEQ and value is dest):")
+
+# --- R06.e lazy consumption (S-C06-9)
+_PF_OLD = ("            num_unnamed = sum(\n"
+           "                (1 for field in string.Formatter().parse(format_str)\n"
+           "                 if field[1] is not None\n"
+           "                 and (len(field[1]) == 0 or field[1].isdecimal())))\n"
+           "        except ValueError as ex:\n"
+           "            return self.trigger_error(\n"
+           "                'Invalid format string \"{}\": {}'.format(format_str, ex))\n")
+_PF_TAIL = ("        except ValueError as ex:\n"
+            "            return self.trigger_error(\n"
+            "                'Invalid format string \"{}\": {}'.format(format_str, ex))\n")
+_PF_SUM = ("        num_unnamed = sum(\n"
+           "            1 for field in fields if field[1] is not None\n"
+           "            and (len(field[1]) == 0 or field[1].isdecimal()))\n")
+B('c06-format-fields-consumed-after-try', 'C06', 'R06.e', IOPARSER,
+  _PF_OLD, "            fields = string.Formatter().parse(format_str)\n" + _PF_TAIL + _PF_SUM)
+B('c06-format-fields-genexp-consumed-after-try', 'C06', 'R06.e', IOPARSER,
+  _PF_OLD, "            fields = (f for f in string.Formatter().parse(format_str))\n"
+  + _PF_TAIL + _PF_SUM)
+N('c06-format-fields-listed-in-try', 'C06', IOPARSER,
+  _PF_OLD, "            fields = list(string.Formatter().parse(format_str))\n" + _PF_TAIL + _PF_SUM)
+N('c06-format-fields-consumed-in-try-by-name', 'C06', IOPARSER,
+  _PF_OLD, "            fields = string.Formatter().parse(format_str)\n"
+  + _PF_SUM.replace("        num", "            num").replace("            1 for", "                1 for").replace("            and (", "                and (")
+  + _PF_TAIL)
+
+# --- R13.h (S-C13-9)
+SETTINGS_PY = 'bardolph/lib/settings.py'
+B('c13-falsy-setting-replaced-by-default', 'C13', 'R13.h', SETTINGS_PY,
+  "        return self._config.get(name, default)", "        return self._config.get(name) or default")
+N('c13-setting-lookup-if-form', 'C13', SETTINGS_PY,
+  "        return self._config.get(name, default)",
+  "        if name in self._config:\n            return self._config[name]\n        return default")
+N('c13-setting-none-means-missing', 'C13', SETTINGS_PY,
+  "        return self._config.get(name, default)",
+  "        value = self._config.get(name)\n        return default if value is None else value")
+
+# --- R08.j (S-C08-9)
+LSMODULE_PY = 'bardolph/controller/ls_module.py'
+_LS_OLD = ("    _jobs = job_control.JobControl()\n\n    @staticmethod\n    def queue_script(script):\n"
+           "        return LsModule._jobs.add_job(ScriptJob.from_string(script))\n")
+B('c08-controller-created-on-first-use', 'C08', 'R08.j', LSMODULE_PY,
+  _LS_OLD,
+  "    _jobs = None\n\n    @staticmethod\n    def queue_script(script):\n"
+  "        if LsModule._jobs is None:\n            LsModule._jobs = job_control.JobControl()\n"
+  "        return LsModule._jobs.add_job(ScriptJob.from_string(script))\n")
+N('c08-controller-created-on-first-use-under-lock', 'C08', LSMODULE_PY,
+  _LS_OLD,
+  "    _jobs = None\n    _create_lock = __import__('threading').Lock()\n\n    @staticmethod\n    def queue_script(script):\n"
+  "        with LsModule._create_lock:\n            if LsModule._jobs is None:\n                LsModule._jobs = job_control.JobControl()\n"
+  "        return LsModule._jobs.add_job(ScriptJob.from_string(script))\n")
+
+# --- R19.j (S-C19-9), R18.g (S-C18-9)
+STDOUT_PY = 'bardolph/lib/std_out_output.py'
+B('c19-sink-strips-trailing-breaks', 'C19', 'R19.j', STDOUT_PY,
+  "        print(output, end='')", "        print(str(output).rstrip('\\n'), end='')")
+B('c19-sink-skips-empty-text', 'C19', 'R19.j', STDOUT_PY,
+  "        print(output, end='')", "        if output:\n            print(str(output)[:-1], end='')")
+N('c19-sink-str-alias', 'C19', STDOUT_PY,
+  "        print(output, end='')", "        text = str(output)\n        print(text, end='')")
+LIGHTSET_PY = 'bardolph/controller/light_set.py'
+B('c18-directory-key-stripped', 'C18', 'R18.g', LIGHTSET_PY,
+  "                light_name = light.get_name()\n", "                light_name = light.get_name().strip()\n")
+B('c18-directory-key-lowered', 'C18', 'R18.g', LIGHTSET_PY,
+  "                self._lights[light_name] = light", "                self._lights[light_name.lower()] = light")
+N('c18-directory-key-str', 'C18', LIGHTSET_PY,
+  "                light_name = light.get_name()\n", "                light_name = str(light.get_name())\n")
